@@ -130,18 +130,27 @@ Proof.
   - apply IH in H. rewrite H. apply length_andl. rewrite length_andl; lia.
 Qed.
 
+Lemma store_flags_length own x v own' : store_flags own x v = Some own' -> length own' = length own.
+Proof.
+  unfold store_flags. destruct (fp (nth x own fbot)).
+  - intros H; inversion H. apply set_nth_length.
+  - destruct (fk (nth v own fbot)); [|discriminate]. intros H; inversion H. unfold unpriv. rewrite !set_nth_length. reflexivity.
+Qed.
+
 Ltac inv_ok H := inversion H; subst; rewrite ?set_nth_length, ?length_top; split; reflexivity.
 
 Lemma own_stmt_length s : forall own n j, own_stmt s own = Some (n, j) -> length n = length own /\ length j = length own.
 Proof.
-  induction s as [r|r v|r v|r vs|r|v|v|r v|d s0|r vs|r v|x v|r v|v| | | |a IHa b IHb|a IHa b IHb|b IHb|c args eff IHe];
+  induction s as [r|r v|r v|r vs|r|v|v|r v|d s0|r vs|r v|x v|x v|r v|v| | | |a IHa b IHb|a IHa b IHb|b IHb|c args eff IHe];
     intros own n j H; simpl in H; try (inv_ok H).
   - destruct (fw (nth v own fbot)); [inv_ok H|discriminate].
   - destruct (fw (nth v own fbot)); [inv_ok H|discriminate].
   - destruct (fw (nth v own fbot)); [inv_ok H|discriminate].
   - destruct (fw (nth d own fbot)); [inv_ok H|discriminate].
-  - destruct (fp (nth x own fbot)); [inv_ok H|]. destruct (fk (nth v own fbot)); [|discriminate].
-    inversion H; subst. unfold unpriv. rewrite ?set_nth_length, ?length_top. split; reflexivity.
+  - destruct (store_flags own x v) as [own'|] eqn:SF; [|discriminate]. apply store_flags_length in SF.
+    inversion H; subst. rewrite length_top. split; auto.
+  - destruct (store_flags own x v) as [own'|] eqn:SF; [|discriminate]. apply store_flags_length in SF.
+    destruct (Nat.eqb x v); inversion H; subst; rewrite ?set_nth_length, length_top; split; auto.
   - destruct (Nat.eqb r v); inv_ok H.
   - destruct (fk (nth v own fbot)); [inv_ok H|discriminate].
   - destruct (own_stmt a own) as [[na ja]|] eqn:A; [|discriminate].
@@ -315,6 +324,35 @@ Proof. unfold sub. destruct (_ && _); [|discriminate]. intros H; inversion H; re
 Lemma sub3_arr s lo hi mx t : sub3 s lo hi mx = Some t -> arr t = arr s.
 Proof. unfold sub3. destruct (_ && _); [|discriminate]. intros H; inversion H; reflexivity. Qed.
 
+Lemma store_flags_keep h0 Ww Wk h rs lg own x v own' :
+  PInv h0 Ww Wk (h, rs, lg) own -> store_flags own x v = Some own' -> PInv h0 Ww Wk (h, rs, lg) own'.
+Proof.
+  intros I SF. unfold store_flags in SF. destruct (fp (nth x own fbot)) eqn:Px.
+  - inversion SF; subst; clear SF. apply PInv_reflag; auto; cbn [fw fk]; intros B; apply andb_prop in B; tauto.
+  - destruct (fk (nth v own fbot)) eqn:Kv; [|discriminate]. inversion SF; subst; clear SF.
+    assert (I1 : PInv h0 Ww Wk (h, rs, lg) (unpriv v own)).
+    { eapply PInv_mono; eauto. apply unpriv_length. apply unpriv_le. }
+    apply PInv_reflag; auto; cbn [fw fk]; intros B; try exact B. apply andb_prop in B. tauto.
+Qed.
+
+Lemma store_flags_take h0 Ww Wk h rs lg own x v own' s :
+  PInv h0 Ww Wk (h, rs, lg) own -> store_flags own x v = Some own' -> nth_error rs v = Some s ->
+  PInv h0 Ww Wk (h, set_nth x s rs, lg) own'.
+Proof.
+  intros I SF H. unfold store_flags in SF. destruct (fp (nth x own fbot)) eqn:Px.
+  - inversion SF; subst; clear SF. apply PInv_assign with (h := h); auto.
+    + eapply PInv_len; eauto.
+    + cbn [fw]. intros B. apply andb_prop in B. eapply owned_w; eauto. tauto.
+    + cbn [fk]. intros B. apply andb_prop in B. eapply owned_k; eauto. tauto.
+  - destruct (fk (nth v own fbot)) eqn:Kv; [|discriminate]. inversion SF; subst; clear SF.
+    assert (I1 : PInv h0 Ww Wk (h, rs, lg) (unpriv v own)).
+    { eapply PInv_mono; eauto. apply unpriv_length. apply unpriv_le. }
+    apply PInv_assign with (h := h); auto.
+    + eapply PInv_len; eauto.
+    + cbn [fw]. intros B. apply andb_prop in B. eapply owned_w; eauto. tauto.
+    + intros _. eapply owned_k; eauto. rewrite unpriv_k. exact Kv.
+Qed.
+
 (* one atomic statement preserves the invariant *)
 Lemma astep_sound h0 Ww Wk st s st' : astep st s st' ->
   forall own n j, own_stmt s own = Some (n, j) -> PInv h0 Ww Wk st own -> PInv h0 Ww Wk st' n.
@@ -389,25 +427,20 @@ Proof.
     + intros _. left. simpl. exact L.
     + intros _. left. simpl. exact L.
   - (* store, register unchanged *)
-    destruct (fp (nth x own fbot)) eqn:Px.
-    + inversion S; subst; clear S. apply PInv_reflag; auto; cbn [fw fk]; intros B; apply andb_prop in B; tauto.
-    + destruct (fk (nth v own fbot)) eqn:Kv; [|discriminate]. inversion S; subst; clear S.
-      assert (I1 : PInv h0 Ww Wk (h, rs, lg) (unpriv v own)).
-      { eapply PInv_mono; eauto. apply unpriv_length. apply unpriv_le. }
-      apply PInv_reflag; auto; cbn [fw fk]; intros B; try exact B. apply andb_prop in B. tauto.
+    destruct (store_flags own x v) as [own'|] eqn:SF; [|discriminate]. inversion S; subst; clear S.
+    eapply store_flags_keep; eauto.
   - (* store, register now shows the stored slice *)
-    destruct (fp (nth x own fbot)) eqn:Px.
-    + inversion S; subst; clear S. apply PInv_assign with (h := h); auto.
-      * eapply PInv_len; eauto.
-      * cbn [fw]. intros B. apply andb_prop in B. eapply owned_w; eauto. tauto.
-      * cbn [fk]. intros B. apply andb_prop in B. eapply owned_k; eauto. tauto.
-    + destruct (fk (nth v own fbot)) eqn:Kv; [|discriminate]. inversion S; subst; clear S.
-      assert (I1 : PInv h0 Ww Wk (h, rs, lg) (unpriv v own)).
-      { eapply PInv_mono; eauto. apply unpriv_length. apply unpriv_le. }
-      apply PInv_assign with (h := h); auto.
-      * eapply PInv_len; eauto.
-      * cbn [fw]. intros B. apply andb_prop in B. eapply owned_w; eauto. tauto.
-      * intros _. eapply owned_k; eauto. rewrite unpriv_k. exact Kv.
+    destruct (store_flags own x v) as [own'|] eqn:SF; [|discriminate]. inversion S; subst; clear S.
+    eapply store_flags_take; eauto.
+  - (* store of an object, register unchanged; the stored register is killed *)
+    destruct (store_flags own x v) as [own'|] eqn:SF; [|discriminate].
+    pose proof (store_flags_keep _ _ _ _ _ _ _ _ _ _ I SF) as I1.
+    destruct (Nat.eqb x v); inversion S; subst; clear S; auto.
+    apply PInv_reflag; [exact I1|discriminate|discriminate].
+  - destruct (store_flags own x v) as [own'|] eqn:SF; [|discriminate].
+    pose proof (store_flags_take _ _ _ _ _ _ _ _ _ _ _ I SF H) as I1.
+    destruct (Nat.eqb x v); inversion S; subst; clear S; auto.
+    apply PInv_reflag; [exact I1|discriminate|discriminate].
   - (* bind, register unchanged *)
     destruct (Nat.eqb r v); inversion S; subst; clear S; auto.
     apply PInv_reflag; [|discriminate|discriminate].
@@ -702,4 +735,23 @@ Example fourth_audit_counter_instances_are_rejected :
   body_checked [1; 2] [false; false; false; false] [false; false; false; false]
     (seq [SMake 1; SMake 2; SBind 2 1; SClone 3 0; SStore 2 3; SEscape 2; SReturn]) = true /\
   calls_ok (fun _ => ([true], [true])) (SCall 0 [[0]] (seq [SWrite 0; SEscape 0; SReturn])) = true.
+Proof. vm_compute. repeat split. Qed.
+
+(* NEGATIVE EXAMPLES (fifth audit).  An object stored into another object: `i := &inner{}; o := &outer{in: i};
+   i.b = p; return o`.  A plain SStore of an object register is not well-formed any more; SStoreObj kills the
+   stored register, so the later store through it is a store into an unknown object and needs a keepable value.
+   The same through one private intermediate.  And the register of a class of local objects may be made only in
+   the entry prefix: a second SMake would reset flags that were lowered. *)
+Example fifth_audit_counter_instances_are_rejected :
+  body_checked [1; 2] [false; false; false] [false; false; false]
+    (seq [SMake 1; SMake 2; SStore 2 1; SStore 1 0; SEscape 2; SReturn]) = false /\
+  body_checked [1; 2] [false; false; false] [false; false; false]
+    (seq [SMake 1; SMake 2; SStoreObj 2 1; SStore 1 0; SEscape 2; SReturn]) = false /\
+  body_checked [1; 2; 3; 4] [false; false; false; false; false] [false; false; false; false; false]
+    (seq [SMake 1; SMake 2; SOpaque 3; SStoreObj 2 1; SStoreObj 3 2; SStore 1 0; SReturn]) = false /\
+  classes_made_once [1] (seq [SMake 1; SStore 1 0; SMake 1; SEscape 1; SReturn]) = false /\
+  (* positive: the object is filled before it is stored *)
+  body_checked [1; 2] [false; false; false; false] [false; false; false; false]
+    (seq [SMake 1; SMake 2; SClone 3 0; SStore 1 3; SStoreObj 2 1; SEscape 2; SReturn]) = true /\
+  classes_made_once [1] (seq [SMake 1; SMake 2; SStore 1 0; SReturn]) = true.
 Proof. vm_compute. repeat split. Qed.
